@@ -27,6 +27,7 @@ fn run_case(x: &Sx) -> Sx {
         "parse" => text::run_parse(&l[1..]),
         "score" => text::run_score(&l[1..]),
         "misc" => text::run_misc(&l[1..]),
+        "ser" => text::run_ser(&l[1..]),
         "read" => text::run_read(&l[1..]),
         "wr" => text::run_wr(&l[1..]),
         "skiprun" => text::run_skiprun(&l[1..]),
